@@ -84,6 +84,7 @@ func (x *Exec) runFrom(st *State, b *ssa.BasicBlock, idx int, prev *ssa.BasicBlo
 				return x.finishReturn(st, rs)
 			case *ssa.Panic:
 				st.panicking = x.term(st, x.eval(st, in.X), in.Pos())
+				st.ownPanic = len(st.frames) == 1
 				st.Note("panic@" + x.posStr(in.Pos()))
 				return x.unwind(st)
 			case *ssa.RunDefers:
